@@ -178,6 +178,8 @@ type Enc struct {
 	specFunsDeclared  map[string]bool
 	topNames          map[string]CE
 	allocLimit        Term
+	curCalleeMods     map[string]bool // deepMods of the callee whose contract is being applied
+	deepModsCache     map[*ssa.Function]map[string]bool
 }
 
 func newEnc(l *Loaded, cs *Contracts, fn *ssa.Function, con *Contract) *Enc {
